@@ -20,7 +20,9 @@ RULE = (
 ASSUMPTIONS = ["may-be-escaped set is read generously: any gen-delim/sub-delim, '%', and anything str.isprintable() rejects", "queries are supplied as mappings (k=v pairs)"]
 
 SPECIAL = ["\xa0", "\xad", "​", "‮", "﻿", "͸", "\U000e0001", "\x85", " ", "é", "€", "😀", "＃", "／", "：", "＠", "？", "℀", "﹕"]
-HOSTS = [("reg", "example.com"), ("idn", "bücher.example"), ("idn2", "例え.jp"), ("ipv4", "127.0.0.1"), ("ipv6", "::1"), ("ipv6zone", "fe80::1%eth0")]
+HOSTS = [("reg", "example.com"), ("idn", "bücher.example"), ("idn2", "例え.jp"), ("ipv4", "127.0.0.1"), ("ipv6", "::1"), ("ipv6zone", "fe80::1%eth0"),
+         ("fqdn", "example.com."), ("idn-fqdn", "bücher.example.")]
+DEFAULT = {"http": 80, "https": 443, "ws": 80, "wss": 443, "ftp": 21}
 
 
 def plan(tier, seed):
@@ -66,7 +68,7 @@ def must_not_be_escaped(ch):
     return ch.isprintable()
 
 
-def check(ctx, kw, sig):
+def check(ctx, kw, sig, _derived=False):
     from yarl import URL
 
     case = {"kw": kw}
@@ -78,6 +80,22 @@ def check(ctx, kw, sig):
         else:
             ctx.fail("unexpected_exception", case, f"build raised {u!r}")
         return
+    if not _derived:
+        # the same URL with its port written out although it is the scheme's default, and under another scheme
+        # (still "built from decoded components", only through modifiers): same obligations
+        sch = kw.get("scheme", "")
+        for tag, fn in (("with_port(default)", lambda: u.with_port(DEFAULT[sch]) if sch in DEFAULT else None), ("with_scheme", lambda: u.with_scheme("https" if sch != "https" else "http")),
+                        ("with_port(443)+with_scheme(https)", lambda: u.with_port(443).with_scheme("https")), ("with_port(0)", lambda: u.with_port(0))):
+            v = guarded(fn)
+            if v is None or is_exc(v):
+                continue
+            _check_url(ctx, v, dict(case, then=tag), (sig + (tag,)) if sig else None, kw)
+    _check_url(ctx, u, case, sig, kw)
+
+
+def _check_url(ctx, u, case, sig, kw):
+    from yarl import URL
+
     hr = guarded(u.human_repr)
     if is_exc(hr):
         ctx.ev(sig + ("hr-exc",) if sig else None)
